@@ -74,15 +74,18 @@ def ob_time_notes(shape, G, nnotes, option, budget_s=120):
         V = tc.sym_timing(shape, G)
         td = tc.build_td(mods, V)
         notes, meta = [], []
-        for i in range(nnotes):
+        for i in range(2 if nnotes == 22 else nnotes):
             k = symx.fresh_int(f"nk{i}", 0, 3 * G)
-            kinds = KINDS if nnotes == 1 else KINDS[:1] + KINDS[3:4]  # two notes: TAP and one non-tap representative (MINE)
+            kinds = KINDS if nnotes == 1 else (KINDS[:1] + KINDS[3:4] if nnotes == 2 else ["TAP", "MINE", "HOLD_HEAD", "TAIL"])
+            # two notes: TAP and one non-tap representative (MINE); nnotes == 22: two notes over TAP/MINE/HOLD_HEAD/TAIL (head and tail pairs)
             kind = kinds[symx.choose(f"kind{i}", len(kinds))]
             col = symx.fresh_int(f"col{i}", 0, 15)
             pl = symx.fresh_int(f"pl{i}", 0, 2)
             if i:   # note data order: by (player, beat) - a later player's notes start again at low beats (routine charts)
                 symx.CTL.assume(z3.Or(pl > meta[i - 1][3], z3.And(pl == meta[i - 1][3], k >= meta[i - 1][0])))
             has_ks = symx.choose(f"hks{i}", 2) if nnotes == 1 else (1 - i % 2)
+            if nnotes == 22 and i == 1:
+                symx.CTL.assume(col == meta[0][2], pl == meta[0][3])     # same lane as the first note (a head and its tail)
             ks = symx.fresh_int(f"ks{i}", 0, None) if has_ks else None
             notes.append(Note(beat=Beat(symx.SymInt(k), 48), column=symx.SymInt(col), note_type=NoteType[kind],
                               player=symx.SymInt(pl), keysound_index=symx.SymInt(ks) if has_ks else None))
@@ -130,6 +133,9 @@ def obligations(tier):
             for o in OPTIONS:
                 obs.append(dict(name=f"time_notes{s}/1note/{o}", func="ob_time_notes", args=(s, G, 1, o), budget_s=b,
                                 bounds=f"shape {s}, 1 note: symbolic tick/column/player/keysound(or none), kind case split over {KINDS}"))
+        for o in OPTIONS:
+            obs.append(dict(name=f"time_notes(0, 0, 0, 1)/2notes-same-lane/{o}", func="ob_time_notes", args=((0, 0, 0, 1), 6, 22, o), budget_s=b,
+                            bounds="one warp, 2 notes on one (player, column) lane over TAP/MINE/HOLD_HEAD/TAIL (a head inside the warp and its tail outside, ...)"))
         for o in OPTIONS:
             obs.append(dict(name=f"time_notes(0, 0, 0, 1)/2notes/{o}", func="ob_time_notes", args=((0, 0, 0, 1), 6, 2, o), budget_s=b, bounds="one warp, 2 notes in (player, beat) order: the second note may lie earlier than the first when its player is higher"))
         for s, g in (((0, 0, 0, 1), 6), ((0, 1, 0, 1), 4), ((0, 0, 1, 1), 4)):
@@ -182,8 +188,8 @@ def replay(data):
         return got != exp, f"hittable({q}) = {got}, expected {exp}; timing={c}"
     nn, option = data["args"][2], data["args"][3]
     notes = []
-    for i in range(nn):
-        kind = (KINDS if nn == 1 else KINDS[:1] + KINDS[3:4])[int(g(f"kind{i}"))]
+    for i in range(2 if nn == 22 else nn):
+        kind = (KINDS if nn == 1 else KINDS[:1] + KINDS[3:4] if nn == 2 else ["TAP", "MINE", "HOLD_HEAD", "TAIL"])[int(g(f"kind{i}"))]
         ks = int(g(f"ks{i}")) if (int(g(f"hks{i}")) if nn == 1 else 1 - i % 2) else None
         notes.append(Note(beat=Beat(int(g(f"nk{i}")), 48), column=int(g(f"col{i}")), note_type=NoteType[kind], player=int(g(f"pl{i}")), keysound_index=ks))
     out = list(time_notes(notes, td, UnhittableNotes[option]))
